@@ -112,6 +112,21 @@ Section Spec.
     rewrite (exact_ann_subtype _ _ He). rewrite Hd. cbn. destruct (IH l Hr) as [-> ->]. split; reflexivity.
   Qed.
 
+  Lemma ret_clash_subtype a e : ret_clash a e = true -> is_subtype_cls (sub_cls_of a) e = Ok false.
+  Proof.
+    destruct a as [[c|]|]; destruct e; cbn; intro H; try discriminate.
+    apply negb_true_iff in H. now rewrite H.
+  Qed.
+
+  Lemma params_clash_zip : forall ps l, params_clash ps l = true -> zip_subtype ps l <> Ok true.
+  Proof.
+    induction ps as [|p ps IH]; destruct l as [|a l]; cbn [params_clash zip_subtype]; intro H; try discriminate.
+    apply orb_true_iff in H as [H|H].
+    - destruct (fst p) as [[c|]|]; destruct a; cbn in H; try discriminate.
+      apply andb_true_iff in H as [H _]. apply negb_true_iff in H. cbn [sub_cls_of is_subtype_cls]. rewrite H. discriminate.
+    - destruct (is_subtype_cls (sub_cls_of (fst p)) a) as [[|]|e]; try discriminate. now apply IH.
+  Qed.
+
   Lemma callable_agrees ps r v : agrees (conforms_callable ps r v)
     (match callable_check cfg ps r v with Ok b => b | Raise _ => false end).
   Proof.
@@ -122,10 +137,17 @@ Section Spec.
     destruct ps as [l|].
     - destruct (negb (Nat.eqb (List.length l) (List.length (filter (fun p => negb (snd p)) (fs_params s))))) eqn:El;
         [apply agrees_mustnot|].
+      destruct (params_clash (fs_params s) l || ret_clash (fs_ret s) r) eqn:Ec.
+      { apply orb_true_iff in Ec as [Ec|Ec].
+        - pose proof (params_clash_zip _ _ Ec) as Hz.
+          destruct (zip_subtype (fs_params s) l) as [[|]|e]; [contradiction|apply agrees_mustnot|apply agrees_mustnot].
+        - destruct (zip_subtype (fs_params s) l) as [[|]|e]; [|apply agrees_mustnot|apply agrees_mustnot].
+          rewrite (ret_clash_subtype _ _ Ec). apply agrees_mustnot. }
       destruct (exact_params (fs_params s) l && exact_ann (fs_ret s) r) eqn:Ex; [|apply agrees_unspec].
       apply andb_true_iff in Ex as [Ep Er]. destruct (exact_params_zip _ _ Ep) as [-> _].
       rewrite (exact_ann_subtype _ _ Er). apply agrees_must.
-    - destruct (exact_ann (fs_ret s) r) eqn:Er; [|apply agrees_unspec].
+    - destruct (ret_clash (fs_ret s) r) eqn:Ec; [rewrite (ret_clash_subtype _ _ Ec); apply agrees_mustnot|].
+      destruct (exact_ann (fs_ret s) r) eqn:Er; [|apply agrees_unspec].
       rewrite (exact_ann_subtype _ _ Er). apply agrees_must.
   Qed.
 
